@@ -39,6 +39,7 @@
 EXTENDS Naturals, Sequences, FiniteSets, TLC
 
 CONSTANTS Mech,        \* "intent" | "code"
+          Focus,       \* initial states: the flags that may be on (a subset of BoolFlags)
           MaxOn,       \* initial states: at most this many flags are on (0..3)
           SrvSel       \* "small": the all-good server and single deviations; "all": every script
 
@@ -71,9 +72,10 @@ SrvsSmall == {Good, [Good EXCEPT !.net = "down"], [Good EXCEPT !.reg = "no"], [G
 SrvSet == IF SrvSel = "all" THEN Srvs ELSE SrvsSmall
 
 FlagSets == CASE MaxOn = 0 -> {{}}
-              [] MaxOn = 1 -> {{}} \cup {{f} : f \in BoolFlags}
-              [] MaxOn = 2 -> {{}} \cup {{f, g} : f \in BoolFlags, g \in BoolFlags}
-              [] OTHER -> {{}} \cup {{f, g, h} : f \in BoolFlags, g \in BoolFlags, h \in BoolFlags}
+              [] MaxOn = 1 -> {{}} \cup {{f} : f \in Focus}
+              [] MaxOn = 2 -> {{}} \cup {{f, g} : f \in Focus, g \in Focus}
+              [] OTHER -> {{}} \cup {{f, g, h} : f \in Focus, g \in Focus, h \in Focus}
+ASSUME Focus \subseteq BoolFlags
 
 DiskOf(r, u, m) ==
     [registered |-> r, unregistered |-> u, machineid |-> m, branch |-> TRUE, lastupload |-> FALSE, tmp |-> FALSE,
@@ -163,7 +165,10 @@ StepAt(pc, ph, o, s, d) ==
     [] pc = "q_check" ->
          IF o.check_results THEN ExW(IF s.net = "up" /\ s.reg = "yes" THEN 100 ELSE 101, d, {}, {"advisor"})
          ELSE Go("q_legacy", d)
-    [] pc = "q_legacy" -> IF ELegacy(o) THEN Go("ql_status", d) ELSE Go("q_bypass", d)
+    (* platform branch: the code tests the offline / no_upload / payload bypass BEFORE --status and
+       --unregister (the legacy branch after them), so that `--unregister --no-upload` collects *)
+    [] pc = "q_legacy" -> IF ELegacy(o) THEN Go("ql_status", d)
+                          ELSE Go(IF Mech = "code" THEN "q_bypass" ELSE "q_status", d)
     (* -- legacy branch -- *)
     [] pc = "ql_status" ->
          IF o.status
@@ -192,15 +197,16 @@ StepAt(pc, ph, o, s, d) ==
            THEN (* POST /v1/systems; an unreachable server is documented as "None -> 101" *)
                 IF s.net = "up" THEN ExW(0, Regd(WithId(c.disk)), sched, c.calls \cup {"register"})
                 ELSE ExW(IF Mech = "code" THEN 1 ELSE 101, WithId(c.disk), {}, c.calls \cup {"register"})
-         ELSE ExW(101, Unregd(WithId(c.disk)), {}, c.calls)
+         ELSE ExW(101, WithId(c.disk), {}, c.calls)     \* c.disk carries the .unregistered marker already
     (* -- platform branch -- *)
-    [] pc = "q_bypass" -> IF ENoUpload(o) \/ o.payload THEN Ex(0, WithId(d)) ELSE Go("q_status", d)
+    [] pc = "q_bypass" -> IF ENoUpload(o) \/ o.payload THEN Ex(0, WithId(d))
+                          ELSE Go(IF Mech = "code" THEN "q_status" ELSE "q_halt", d)
     [] pc = "q_status" -> IF o.status THEN Ex(IF d.registered THEN 100 ELSE 101, d) ELSE Go("q_unreg", d)
     [] pc = "q_unreg" ->
          IF o.unregister
            THEN IF d.machineid \/ d.registered THEN ExW(100, Unregd(d), {"unschedule"}, {})
                 ELSE Ex(101, IF o.force THEN Unregd(d) ELSE d)
-           ELSE Go("q_halt", d)
+           ELSE Go(IF Mech = "code" THEN "q_halt" ELSE "q_bypass", d)
     [] pc = "q_halt" -> IF ~d.registered /\ ~ERegister(o) THEN Ex(101, d) ELSE Go("q_register", d)
     [] pc = "q_register" ->
          IF ERegister(o) /\ ~o.disable_schedule THEN GoW("q_end", d, {"schedule"}, {}) ELSE Go("q_end", d)
